@@ -153,7 +153,7 @@ func genHist(t *rapid.T, o genOpts) Hist {
 	}
 	names := o.names
 	if names == nil {
-		names = []string{"smf", "smf1", "smf11", "", "1", "11"}
+		names = []string{"smf", "smf1", "smf11", "", "1", "11", "smf%41", "100%25", "smf-münchen"}
 	}
 	nops := rapid.IntRange(o.minOps, o.maxOps).Draw(t, "nOps")
 	liveCount := make([]int, ns)
@@ -177,6 +177,8 @@ func genHist(t *rapid.T, o genOpts) Hist {
 			op.Name = rapid.SampledFrom(names).Draw(t, "name")
 			op.Plmn = rapid.Bool().Draw(t, "plmn")
 			op.Addr = rapid.Bool().Draw(t, "addr")
+			op.Pdu = rapid.SampledFrom([]int{0, 0, 1, 2}).Draw(t, "pdu")
+			op.NSt = rapid.SampledFrom([]int{0, 0, 0, 400, 307, 200, 404, 500}).Draw(t, "notifyStatus")
 			liveCount[s]++
 		case "update":
 			op.Sess = rapid.IntRange(0, 2).Draw(t, "sess")
